@@ -155,6 +155,22 @@ def run(rec):
                         if ok:
                             exp = [mpsgen.expect_dense(v, sites, [(a, i), (b, L - 1)]) for i in sorted(iL, reverse=True)]    # values are returned for descending i
                             rec.check(np.allclose(c, exp, atol=tol), 'term_correlation_function_left:value', f'ops {a},{b}: {np.asarray(c)} vs {np.asarray(exp)}', dict(inp, ops=(a, b)))
+                # correlation function between *sums* of terms (each sum mixes operators of different charge: (a + a^dagger)-type)
+                if L >= 4:
+                    prs = [(a, s0.get_hc_op_name(a)) for a in cand[:6] if s0.get_hc_op_name(a) in s0.opnames and s0.get_hc_op_name(a) != a]
+                    if prs:
+                        a, b = prs[int(rng.integers(0, len(prs)))]
+                        c1, c2, c3, c4 = [complex(rng.standard_normal(), rng.standard_normal()) for _ in range(4)]
+                        tlL = TermList([[(a, 0)], [(b, 0)]], [c1, c2])
+                        tlR = TermList([[(a, 0)], [(b, 0)]], [c3, c4])
+                        jR = list(range(1, L))
+                        ok, c = rec.guarded('term_list_correlation_function_right:exception',
+                                            lambda: psi.term_list_correlation_function_right(tlL, tlR, i_L=0, j_R=jR), dict(inp, ops=(a, b)))
+                        if ok:
+                            exp = [sum(x * y * mpsgen.expect_dense(v, sites, [(o1, 0), (o2, j)])
+                                       for x, o1 in ((c1, a), (c2, b)) for y, o2 in ((c3, a), (c4, b))) for j in jR]
+                            rec.check(np.allclose(c, exp, atol=tol), 'term_list_correlation_function_right:value',
+                                      f'ops {a},{b}: {np.asarray(c)} vs dense {np.asarray(exp)}', dict(inp, ops=(a, b)))
                 # explicit operator string (bosonic ops only)
                 bos = [n for n in cand if not s0.op_needs_JW(n)]
                 if L >= 3 and bos:
